@@ -1,8 +1,8 @@
 /*
  * C05-H1/H2: no memory error, crash or hang for any ex command line.
  * MODE 0: one command line of NB free bytes (1..127) on top of a template prefix, then q!.
- * MODE 2: all ordered pairs of 46 command lines (addresses out of range with ';', undo, bare s, &, global, deletes to an empty
- *         buffer, registers, marks, :so/:e with unset alternate file, tags, options), followed by p.
+ * MODE 2: all ordered pairs of 54 command lines (addresses out of range with ';', undo, bare s, &, global, deletes to an empty
+ *         buffer, registers, a register rewritten or executed by the command it holds, reading an empty file at address 0, marks, :so/:e with unset alternate file, tags, options), followed by p.
  * MODE 1: the 512-byte limit: command lines of solver-chosen length 505..516 made of a filler of each
  *         kind (addresses, a command name, an argument, a long s pattern, a g command list).
  */
@@ -42,9 +42,11 @@ void harness(void)
 		 * alternate file, empty buffer, registers, marks), the second uses it */
 		static const char *cmds[] = {"9;", "0;", "-5;p", "$;+3", "u", "redo", "s/a/b/", "s", "&", "g/a/s//x/", "d", "%d", "1,$d|u", "a\nx\n.", "pu",
 			"y", "ka", "'a", "'ad", "so #", "so", "e #", "e", "b 9", "rs a\nq\n.", "@a", "ra a", "=", "p", ".=", "$", "w", "w o", "cm x", "ft", "se td=3",
-			"ta x", "po", "tn", "%s/^/\\0\\9/", "g/./d", "v/./p", "1m", "j", "x", "wq!"};
+			"ta x", "po", "tn", "%s/^/\\0\\9/", "g/./d", "v/./p", "1m", "j", "x", "wq!",
+			"0r empty", "g/./0r empty", "rs c\n1y c|p|p\n.", "@c", "rs b\n@b\n.", "@b", "0pu", "g/./0pu"};
 		int a = symx_u8("first"), b = symx_u8("second");
-		symx_assume(a < 46 && b < 46);
+		env_mkfile("empty", "", 0, 5);
+		symx_assume(a < 54 && b < 54);
 		a = symx_conc(a);
 		b = symx_conc(b);
 		vih_str(cmds[a]);
